@@ -41,6 +41,9 @@ def scenario(ctx, log, run_id, sw, ww, keep_alive, rnd, quick, max_scrape=3, eve
                     req = {"kind": kind, "h": r.choice((1, 2, 3)), "port": 5000 + k * 10 + r.randrange(3),
                            "event": r.choice(("started", "none", "completed", "stopped")), "left": r.choice((0, 1)),
                            "numwant": r.choice((None, 0, 1, 2, 50)), "ncuts": r.choice((0, 0, 1, 2, 3))}
+                    if r.random() < 0.35:
+                        # a segment boundary inside the final CRLFCRLF or right after the request line
+                        req["tail_cut"] = r.choice((1, 2, 3, 4))
                     out = do_request(log, conn, "%s_g%d" % (cname, gen), i, req, r)
                     if kind != "announce" or out.get("outcome") != "reply" or not keep_alive or out.get("server_closed"):
                         conn.close()
@@ -67,7 +70,8 @@ def scenario(ctx, log, run_id, sw, ww, keep_alive, rnd, quick, max_scrape=3, eve
         for hs in ([1], [1, 2, 3], [3, 2, 1, 4], [2, 2, 1], [4, 1, 2, 3, 1], [5], [1, 3]):
             for c, nm in ((sc, "s4"), (sc6, "s6")):
                 out = do_request(log, c, "%s_%d_%d" % (nm, run_id, j), j,
-                                 {"kind": "scrape", "hs": hs, "ncuts": rnd.choice((0, 1, 2))}, rnd)
+                                 {"kind": "scrape", "hs": hs, "ncuts": rnd.choice((0, 1, 2)),
+                                  "tail_cut": (j % 4) + 1 if j % 2 == 0 else None}, rnd)
                 j += 1
                 if not keep_alive or out.get("outcome") != "reply":
                     c.close()
@@ -87,7 +91,9 @@ def scenario(ctx, log, run_id, sw, ww, keep_alive, rnd, quick, max_scrape=3, eve
         sc.close()
         sc6.close()
         if not t.alive():
-            raise ToolError("HTTP tracker died during the scenario: " + t.stderr()[-400:])
+            # a tracker that exits while serving is data, not a tool problem: no specification action
+            # matches this event, so the run is rejected
+            log.add({"ev": "tracker_died", "stderr": t.stderr()[-600:], "stdout": t.stdout()[-300:]})
     finally:
         t.stop()
 
